@@ -231,6 +231,27 @@ func Run(peer *Peer, torEvent chan<- TorEvent, torDone <-chan struct{},
 		}
 	}()
 
+	defer func() {
+		close(peer.Done)
+
+		peer.requests.Clear(true, func(index uint32) {
+			drop(peer, index)
+		})
+		writeEvent(peer, TorPeerBitmap{peer, peer.bitmap.Copy(), false})
+		writeEvent(peer, TorPeerGoaway{peer})
+		for len(peer.events) > 0 {
+			select {
+			case peer.torEvent <- peer.events[0]:
+				peer.events = peer.events[1:]
+				if len(peer.events) == 0 {
+					peer.events = nil
+				}
+			case <-peer.torDone:
+				return
+			}
+		}
+	}()
+
 	peer.reqQ = 128
 	peer.time = time.Now()
 	peer.writeTime = time.Now()
@@ -328,27 +349,6 @@ func Run(peer *Peer, torEvent chan<- TorEvent, torDone <-chan struct{},
 	ticker := time.NewTicker(2 * time.Second)
 	defer ticker.Stop()
 	defer peer.stopUpload()
-
-	defer func() {
-		close(peer.Done)
-
-		peer.requests.Clear(true, func(index uint32) {
-			drop(peer, index)
-		})
-		writeEvent(peer, TorPeerBitmap{peer, peer.bitmap.Copy(), false})
-		writeEvent(peer, TorPeerGoaway{peer})
-		for len(peer.events) > 0 {
-			select {
-			case peer.torEvent <- peer.events[0]:
-				peer.events = peer.events[1:]
-				if len(peer.events) == 0 {
-					peer.events = nil
-				}
-			case <-peer.torDone:
-				return
-			}
-		}
-	}()
 
 	for {
 
